@@ -1205,9 +1205,9 @@ pub fn cmd_leak(a: &Args) -> i32 {
         if e % 2 == 0 {
             let mut c = make_case(&ra, e / 2);
             // a quarter of the histories also contain a fault: what was not delivered must still be released
-            if rng.chance(1, 4) {
+            if rng.chance(3, 8) {
                 let k = rng.below(c.len + 2) as i64;
-                c.cfg.inject = match rng.below(3) {
+                c.cfg.inject = match rng.below(4) {
                     0 => {
                         // make sure a closure runs: chunked for_each / fold on the first thread
                         let n = rng.range(2, 5);
@@ -1219,7 +1219,7 @@ pub fn cmd_leak(a: &Args) -> i32 {
                         c.cfg.scripts[0].pre.insert(0, op);
                         Inject::Closure(k)
                     }
-                    1 => Inject::Drop(k),
+                    1 | 2 => Inject::Drop(k),
                     _ => Inject::WrappedNext(k),
                 };
             }
